@@ -41,10 +41,10 @@ PROPERTY = "C20"
 LEVEL = "exploration"
 RULE = (
     "S1: sequential call sequences (length 4-40) over <=5 keys incl. 1/1.0/True typed "
-    "aliases x maxsize in {None,0,1,2,3} x typed x ttl in {None,2,4} with virtual sleeps, "
+    "aliases x maxsize in {None,0,1,2,3} x typed x ttl in {None,0,2,4} with virtual sleeps, "
     "compared call-by-call with a reference LRU; S2/S3: 2-6 concurrent callers (scope or "
     "native cancellable) over 1-4 keys with per-call delay, work (suspensions), failure and "
-    "cancellation plans, maxsize in {None,1,2,3}, always_checkpoint on/off, ttl on/off. "
+    "cancellation plans, maxsize in {None,1,2,3}, always_checkpoint on/off, ttl in {None,0,3} with virtual sleeps. "
     "Non-trivial = (S1) at least one eviction or expiry in the reference, (S2/S3) two calls "
     "on one key overlapped in time; distinct = distinct trace signature."
 )
@@ -59,6 +59,7 @@ NSHARDS = 16
 F3_EVICT = "lru_cache:entry-evicted-while-referenced"
 F3_RETRY = "lru_cache:retry-after-failed-call-under-finite-maxsize"
 F16_CLEAR = "lru_cache:cache_clear-with-calls-in-flight-under-finite-maxsize"
+F19_EXPIRED = "lru_cache:entry-expired-while-callers-still-queued-on-its-lock"
 KEYS = [1, 2, 3, "a", "b", 1.0, True]  # the last two alias 1 unless typed
 
 
@@ -118,7 +119,7 @@ def gen_s1(rng: random.Random, cfgs: list[str]) -> dict:
     nkeys = rng.randint(2, 5)
     alias = rng.random() < 0.3
     keys = rng.sample(range(len(KEYS) if alias else 5), nkeys)
-    ttl = rng.choice([None, None, 2, 4])
+    ttl = rng.choice([None, None, 2, 4, 0])  # ttl=0: a result expires the moment it is stored
     seq = []
     for _ in range(rng.randint(4, 40)):
         sleep = 0
@@ -265,7 +266,7 @@ def gen_conc(rng: random.Random, cfgs: list[str]) -> dict:
                       "work": rng.randint(0, 3), "fail": fail, "cancel": cancel,
                       "mode": rng.choice(["scope", "scope", "native", "native-in-group"])})  # fmt: skip
 
-    ttl = rng.choice([None, None, None, 3])
+    ttl = rng.choice([None, None, None, 3, 3, 0])
     if ttl is not None:
         # virtual seconds slept before the call: entries expire between (and callers that
         # slept equally long arrive in the same loop iteration at an expired entry)
@@ -350,6 +351,23 @@ def execute_conc(case: dict) -> dict:
 
             return None
 
+        def f19_mech(k, overlapping: list) -> str | None:  # noqa: ANN001
+            """F19: one of the overlapping executions was started by a call that had been in
+            flight since before an earlier successful execution of the key completed - it was
+            queued on that execution's lock - and that execution's result has expired by now
+            (somebody replaced the expired entry by a new placeholder with a new lock)"""
+            if case["ttl"] is None:
+                return None
+
+            now = anyio.current_time()
+            for r in overlapping:
+                for done in execs.get(k, []):
+                    if (done["status"] == "ok" and "end" in done and r["call"] < done["end"]
+                            and now >= done["end_time"] + case["ttl"]):  # fmt: skip
+                        return F19_EXPIRED
+
+            return None
+
         @lru_cache(maxsize=ms, ttl=case["ttl"], always_checkpoint=case["always_checkpoint"])
         async def fn(k):  # noqa: ANN001, ANN202
             running[k] = running.get(k, 0) + 1
@@ -373,7 +391,8 @@ def execute_conc(case: dict) -> dict:
                            for c in clears) for r in older):  # fmt: skip
                     window("overlap_across_cache_clear")
                 else:
-                    viol.append(("overlapping-executions-of-one-key", {"key": k}, f3_mech()))
+                    viol.append(("overlapping-executions-of-one-key", {"key": k},
+                                 f3_mech() or f19_mech(k, [rec, *older])))  # fmt: skip
 
             try:
                 work, fail = plans.get(k, [(1, False)]).pop(0) if plans.get(k) else (1, False)
@@ -756,6 +775,18 @@ def ttl_family():  # noqa: ANN201
                                    "always_checkpoint": ac, "calls": calls, "clears": []}  # fmt: skip
 
 
+def f19_witness_cases():  # noqa: ANN201
+    """the history of witnesses/F19_expiry_with_waiters_queued.py: a holder and two queued
+    callers, ttl=0, fresh callers arriving around the completion"""
+    for cfg in ("stock", "eager"):
+        calls = [{"key": 0, "delay": 0, "work": 3, "fail": False, "cancel": None, "mode": "scope",
+                  "sleep": 0} for _ in range(3)]  # fmt: skip
+        calls += [{"key": 0, "delay": d, "work": 3, "fail": False, "cancel": None, "mode": "scope",
+                   "sleep": 0} for d in range(2, 10)]  # fmt: skip
+        yield {"stratum": "conc", "cfg": cfg, "maxsize": None, "nkeys": 1, "ttl": 0,
+               "always_checkpoint": False, "calls": calls, "clears": []}  # fmt: skip
+
+
 def f3_witness_cases():  # noqa: ANN201
     """the two shapes in which F3 was found, so that the known finding is re-observed (or
     seen to be gone) on every run"""
@@ -772,6 +803,7 @@ def f3_witness_cases():  # noqa: ANN201
 def all_cases(tier: str, seed: int):  # noqa: ANN201
     cfgs = ["stock", "eager"]
     yield from f3_witness_cases()
+    yield from f19_witness_cases()
     yield from s4_family()
     yield from ttl_family()
     rng4 = random.Random(seed * 4001 + 4)
